@@ -46,7 +46,7 @@ FLOORS = {"quick": {"evaluations": 120, "pending_overlap_pairs": 150, "apdus_att
                     "slow_request_rounds": 1, "link_fault_rounds": 3,
                     "device_error_replies_in_fault_rounds": 3,
                     "state_replies_compared_with_device_state": 30,
-                    "advances_refused_by_device": 10, "late_answer_rounds_over_tcp": 2, "slow_sender_rounds": 2,
+                    "advances_refused_by_device": 10, "late_answer_rounds_over_tcp": 2, "slow_sender_rounds": 3,
                     "failed_uiheartbeat_rounds": 1},
           "thorough": {"evaluations": 15000, "pending_overlap_pairs": 100000,
                        "apdus_attributed": 200000, "replies_matched": 15000, "distinct": 300,
@@ -62,7 +62,7 @@ def shards(tier, seed):
                  "slow": [6.5] if i == 0 else [],
                  "fault_rounds": 1 if 1 <= i <= 3 else 0,
                  "late": [12.5] if i in (4, 5) else [],
-                 "slowsend_rounds": 1 if i in (6, 7) else 0,
+                 "slowsend_rounds": 1 if i in (5, 6, 7) else 0,
                  "uihb_tail": [7.5] if i == 2 else []} for i in range(8)]
     slow = {0: [6.5], 1: [12.0], 2: [32.0], 3: [62.0], 4: [125.0]}
     return [{"seed": seed * 100 + i, "rounds": 60, "max_clients": 16, "per_client": 4,
@@ -216,6 +216,8 @@ def run_round(acc, spec, rnd, rng, slow=None, fault=None, late=None, slowsend=Fa
         fault = fault or {"tolerate_only": True}
     slow = slow or (0.001 if late else None)
     nclients = rng.randint(2, spec["max_clients"]) if not slow else 3
+    if slowsend:
+        nclients = spec["max_clients"]
     per = spec["per_client"] if not slow else 2
     if fault:
         nclients, per = 3, 7
@@ -232,6 +234,8 @@ def run_round(acc, spec, rnd, rng, slow=None, fault=None, late=None, slowsend=Fa
                 bus.next_answer_delay = late
             elif slow and len(apdu) > 1 and apdu[1] == 0x20:
                 time.sleep(slow / 9.0)
+            elif slowsend:
+                time.sleep(0.004 + delay_rng.random() * 0.008)
             elif fault:
                 time.sleep(0.002 + delay_rng.random() * 0.006)
             else:
@@ -281,6 +285,12 @@ def run_round(acc, spec, rnd, rng, slow=None, fault=None, late=None, slowsend=Fa
                 byname = dict(gens)
                 plan[c] = [("state", byname["state"])] if c == 0 else \
                     [("signhash", byname["signhash"]), ("pubkey", byname["pubkey"])]
+            if slowsend:
+                # even clients: prompt senders of long multi-exchange requests, so that
+                # the device is busy most of the time; odd clients: the late senders
+                byname = dict(gens)
+                plan[c] = [(k, byname[k]) for k in (["sign", "advance"] * 4 if c % 2 == 0
+                                                    else ["state", "pubkey", "heartbeat"])]
             if uihb_tail:
                 byname = dict(gens)
                 steady = [(k, byname[k]) for k in ("state", "sign", "heartbeat", "state",
@@ -336,7 +346,7 @@ def run_round(acc, spec, rnd, rng, slow=None, fault=None, late=None, slowsend=Fa
                 try:
                     cs = socket.create_connection(("127.0.0.1", port), timeout=60 + (slow or 0))
                     cs.settimeout(60 + (slow or 0))
-                    if slowsend and ssrng.random() < 0.4:
+                    if slowsend and c % 2 == 1:
                         # connected, but the request line comes later (in one piece or in
                         # two): whatever the server does with such a client meanwhile,
                         # requests may not meet on the device
@@ -500,7 +510,7 @@ def run_shard(spec, acc):
         acc.count("slow_request_rounds")
         run_round(acc, spec, 1000 + k, rng, slow=total)
     for k in range(spec.get("slowsend_rounds", 0)):
-        run_round(acc, dict(spec, max_clients=5, per_client=3), 4000 + k, rng, slowsend=True)
+        run_round(acc, dict(spec, max_clients=6, per_client=4), 4000 + k, rng, slowsend=True)
     for k, d in enumerate(spec.get("uihb_tail", [])):
         run_round(acc, dict(spec, max_clients=3), 5000 + k, rng, uihb_tail=d)
     for k, d in enumerate(spec.get("late", [])):
